@@ -124,6 +124,7 @@ FIXED_PROGRAMS = [
     'def f21 { salt: "$str" splitters: uid, tenant return "A" weighted 1, "B" weighted 1, "C" weighted 1 }',
     'def f22 { salt: "${uid}%(uid)s{uid}$uid" splitters: uid return "A" weighted 1, "B" weighted 1, "C" weighted 1 }',
     'def f24 { salt: "a\tb\x0cc\u2028d\x85e\x1cf\rg  h" splitters: uid if x == "p\tq" { return "tab" weighted 1 } else if x == "p    q" { return "spaces" weighted 1 } else if x == "p\x0bq\u2029r" { return "vt" weighted 1 } else { return "A" weighted 1, "B" weighted 1 } }',
+    'def f25 { splitters: uid if code in "FR,DE,IT" { return "eu" weighted 1 } else if code not in "xyz" { return "notxyz" weighted 1 } else if "a" in tags { return "tagged" weighted 1 } else { return "rest" weighted 1 } }',
     'def f23 { salt: "2024" splitters: uid if z == "02134" { return "zip" weighted 1 } else if z == "1e5" { return "exp" weighted 1 } else if z == " 12 " { return "pad" weighted 1 } else if z == "inf" { return "inf" weighted 1 } else { return "A" weighted 1, "B" weighted 1 } }',
 ]
 
